@@ -473,6 +473,7 @@ func lDirectedExtras(meta *Meta) {
 		real := `{"get":{"operationId":"real","responses":{"200":{"description":"ok"}}}}`
 		for _, tc := range []struct{ name, alias string }{
 			{"bare", `{"$ref":"#/paths/~1real"}`}, {"empty parameters", `{"$ref":"#/paths/~1real","parameters":[]}`}, {"empty servers", `{"$ref":"#/paths/~1real","servers":[]}`},
+			{"extension sibling", `{"$ref":"#/paths/~1real","x-note":"n"}`}, {"external, extension sibling", `{"$ref":"items.json#/paths/~1thing","x-note":"n"}`},
 			{"external", `{"$ref":"items.json#/paths/~1thing"}`}, {"external, empty parameters", `{"$ref":"items.json#/paths/~1thing","parameters":[]}`},
 		} {
 			for _, origins := range []bool{false, true} {
